@@ -771,3 +771,10 @@ def fx_countrmw(fx):
     nb = sync.counter_only_rmw(c, fx, "src/lib.rs", "countfx::BadMgr", ["writers"], only=lambda fid: "countfx::BadMgr" in fid)
     no = sync.counter_only_rmw(c, fx, "src/lib.rs", "countfx::OkMgr", ["writers"], only=lambda fid: "countfx::OkMgr" in fid)
     return nb == 2 and no == 2 and _fires(c, "BadMgr::bad_release") and not _fires(c, "BadMgr::new") and not _fires(c, "countfx::OkMgr")
+
+
+def fx_rawwords(fx):
+    from rules import shrink
+    c = _ctx()
+    n = shrink.raw_words_masked(c, fx, ["src/lib.rs"], only=lambda fid: "rawfx::" in fid)
+    return n == 3 and _fires(c, "rawfx::bad_from_words") and not _fires(c, "rawfx::ok_from_words") and not _fires(c, "rawfx::ok_bitwise")
